@@ -20,8 +20,8 @@ from liquid2.ast import Node
 from liquid2.builtin import FilteredExpression
 from liquid2.builtin import Identifier
 from liquid2.builtin import KeywordArgument
+from liquid2.builtin import Literal
 from liquid2.builtin import Path
-from liquid2.builtin import StringLiteral
 from liquid2.builtin import parse_keyword_arguments
 from liquid2.builtin.content import ContentNode
 from liquid2.builtin.output import OutputNode
@@ -254,12 +254,21 @@ class TranslateNode(Node, TranslatableTag):
             return ()
 
         message_context = self.args.get(self.message_context_var)
+        context_text: str | None = None
+        if message_context and isinstance(message_context.value, Literal):
+            # As `resolve_message_context` does. A number is looked up by its
+            # string form, and zero or false is no message context.
+            value = message_context.value.value
+            if isinstance(value, str):
+                context_text = value
+            elif value:
+                context_text = str(value)
 
         if self.plural_block:
-            if message_context and isinstance(message_context.value, StringLiteral):
+            if context_text is not None:
                 funcname = "npgettext"
                 message: MESSAGES = (
-                    (message_context.value.value, "c"),
+                    (context_text, "c"),
                     self.singular_block.text,
                     self.plural_block.text,
                 )
@@ -269,10 +278,10 @@ class TranslateNode(Node, TranslatableTag):
                     self.singular_block.text,
                     self.plural_block.text,
                 )
-        elif message_context and isinstance(message_context.value, StringLiteral):
+        elif context_text is not None:
             funcname = "pgettext"
             message = (
-                (message_context.value.value, "c"),
+                (context_text, "c"),
                 self.singular_block.text,
             )
         else:
